@@ -706,6 +706,12 @@ func parseTLV(data []byte) (result []interface{}, err error) {
 					shape.Sizes = append(shape.Sizes, d)
 				}
 			}
+			for nch, i := 1, 0; i < len(shape.Sizes); i++ {
+				// The product of the sizes is the channel count: it must not overflow (to 0).
+				if nch *= int(shape.Sizes[i]); nch > math.MaxUint16 {
+					return result, fmt.Errorf("shape TLV describes more than %d channels", math.MaxUint16)
+				}
+			}
 			if len(shape.Sizes) == 0 {
 				return result, fmt.Errorf("shape TLV contains no positive sizes")
 			}
